@@ -1,26 +1,435 @@
+// Command jmsim is the harness of the jmespath deterministic simulator. It is
+// compiled inside the instrumented scratch copy of the repository (twice:
+// plain and -race) and has these sub-commands:
+//
+//	orch    orchestrate a whole check (spawns the others), write evidence
+//	worker  run a range of seeded workloads in this process
+//	sweep   preemption-point sweep over a range of workloads
+//	replay  run one explicit workload from a replay file
+//	oracle  re-evaluate recorded (expression, document) pairs without history
+//	gen     print generated workloads (debugging / samples)
 package main
 
 import (
+	"bufio"
+	"encoding/json"
+	"flag"
 	"fmt"
+	"os"
+	"sort"
+	"strconv"
+	"strings"
 
-	jmespath "github.com/woodsbury/jmespath"
 	"github.com/woodsbury/jmespath/internal/simrt"
 )
 
+const (
+	exitViolation = 1
+	exitTrouble   = 2
+	exitRace      = 66
+)
+
 func main() {
-	doc := map[string]any{"a": []any{3.0, 1.0, 2.0}, "b": map[string]any{"x": 1.0, "y": 2.0, "z": 3.0}}
-	e := jmespath.MustCompile("{s: sort(a), k: keys(b), v: let $q = b.x in [$q, $]}")
-	var outs [3]any
-	fns := make([]func(), 3)
-	for i := range fns {
-		i := i
-		fns[i] = func() {
-			simrt.SetPolicy(simrt.Policy{Kind: uint8(i)})
-			outs[i], _ = e.Search(doc)
+	if len(os.Args) < 2 {
+		fmt.Fprintln(os.Stderr, "usage: jmsim orch|worker|sweep|replay|oracle|gen ...")
+		os.Exit(exitTrouble)
+	}
+	switch os.Args[1] {
+	case "worker":
+		cmdWorker(os.Args[2:], false)
+	case "sweep":
+		cmdWorker(os.Args[2:], true)
+	case "replay":
+		cmdReplay(os.Args[2:])
+	case "oracle":
+		cmdOracle(os.Args[2:])
+	case "gen":
+		cmdGen(os.Args[2:])
+	case "orch":
+		cmdOrch(os.Args[2:])
+	case "selftest":
+		cmdSelftest(os.Args[2:])
+	default:
+		fmt.Fprintln(os.Stderr, "unknown sub-command", os.Args[1])
+		os.Exit(exitTrouble)
+	}
+}
+
+func genWorkload(prop string, seed, index uint64, maxOps int) *Workload {
+	switch prop {
+	case "C06":
+		return GenC06(seed, index, maxOps)
+	case "C07":
+		return GenC07(seed, index)
+	case "C15":
+		return GenC15(seed, index)
+	}
+	fmt.Fprintln(os.Stderr, "unknown property", prop)
+	os.Exit(exitTrouble)
+	return nil
+}
+
+func runWorkload(w *Workload, st *Stats, maxYields uint64) *RunReport {
+	switch w.Prop {
+	case "C06":
+		return RunC06(w, st, maxYields)
+	case "C07":
+		return RunC07(w, st, maxYields)
+	case "C15":
+		return RunC15(w, st, maxYields)
+	}
+	return &RunReport{Inconclusive: "unknown property " + w.Prop}
+}
+
+// WorkerOut is what a worker process reports (one JSON document).
+type WorkerOut struct {
+	Prop      string     `json:"prop"`
+	Race      bool       `json:"race"`
+	From, To  uint64     `json:"-"`
+	Runs      uint64     `json:"runs"`
+	Viol      *Violation `json:"violation,omitempty"`
+	Workload  *Workload  `json:"workload,omitempty"` // explicit form of the violating run
+	Inconcl   string     `json:"inconclusive,omitempty"`
+	S         StatsOut   `json:"stats"`
+	SampleWls []string   `json:"samples,omitempty"`
+}
+
+type StatsOut struct {
+	Runs, Calls, OkCalls, ErrCalls, PanicCalls, Aborted, StaticErr, Steps, MaxSteps, Switches, MapServed, MapReord, GCs uint64
+	AliasResults, SpareCapDocs, SharedDocCalls, ExprStateChanged, Feeds, Mutates, NonNull                            uint64
+	Unsafe, Strict, Enum, MultiFault, Compared, Blocks, Cold                                                          uint64
+	Schedules                                                                                                         map[string]uint64
+	SwitchHashes, Texts, NontrivTexts                                                                                 []uint64
+	SitePairs                                                                                                         [][2]int32
+	PreemptSites                                                                                                      []int32
+	SiteHits                                                                                                          []uint32
+	TraceDigest                                                                                                       uint64
+	MapPerms                                                                                                          []uint64
+}
+
+func (st *Stats) out() StatsOut {
+	o := StatsOut{Runs: st.Runs, Calls: st.Calls, OkCalls: st.OkCalls, ErrCalls: st.ErrCalls, PanicCalls: st.PanicCalls, Aborted: st.Aborted,
+		StaticErr: st.StaticErr, Steps: st.Steps, MaxSteps: st.MaxSteps, Switches: st.Switches, MapServed: st.MapServed, MapReord: st.MapReord,
+		GCs: st.GCs, AliasResults: st.AliasResults, SpareCapDocs: st.SpareCapDocs, SharedDocCalls: st.SharedDocCalls,
+		ExprStateChanged: st.ExprStateChanged, Feeds: st.Feeds, Mutates: st.Mutates, NonNull: st.NonNull, Unsafe: st.Unsafe, Strict: st.Strict,
+		Enum: st.Enum, MultiFault: st.MultiFault, Compared: st.Compared, Blocks: st.Blocks, Cold: st.Cold, Schedules: st.Schedules, TraceDigest: st.TraceDigest}
+	for h := range st.SwitchHashes {
+		o.SwitchHashes = append(o.SwitchHashes, h)
+	}
+	for h := range st.Texts {
+		o.Texts = append(o.Texts, h)
+	}
+	for h := range st.NontrivTexts {
+		o.NontrivTexts = append(o.NontrivTexts, h)
+	}
+	for p := range st.SitePairs {
+		o.SitePairs = append(o.SitePairs, p)
+	}
+	for p := range st.PreemptSites {
+		o.PreemptSites = append(o.PreemptSites, p)
+	}
+	for p := range simrt.PermSeen {
+		o.MapPerms = append(o.MapPerms, p)
+	}
+	sort.Slice(o.SwitchHashes, func(a, b int) bool { return o.SwitchHashes[a] < o.SwitchHashes[b] })
+	sort.Slice(o.Texts, func(a, b int) bool { return o.Texts[a] < o.Texts[b] })
+	sort.Slice(o.NontrivTexts, func(a, b int) bool { return o.NontrivTexts[a] < o.NontrivTexts[b] })
+	sort.Slice(o.PreemptSites, func(a, b int) bool { return o.PreemptSites[a] < o.PreemptSites[b] })
+	sort.Slice(o.MapPerms, func(a, b int) bool { return o.MapPerms[a] < o.MapPerms[b] })
+	sort.Slice(o.SitePairs, func(a, b int) bool {
+		if o.SitePairs[a][0] != o.SitePairs[b][0] {
+			return o.SitePairs[a][0] < o.SitePairs[b][0]
+		}
+		return o.SitePairs[a][1] < o.SitePairs[b][1]
+	})
+	o.SiteHits = simrt.SiteHits
+	return o
+}
+
+func writeJSONFile(path string, v any) {
+	b, err := json.Marshal(v)
+	if err != nil {
+		fmt.Fprintln(os.Stderr, "harness: marshal:", err)
+		os.Exit(exitTrouble)
+	}
+	if err := os.WriteFile(path, b, 0o644); err != nil {
+		fmt.Fprintln(os.Stderr, "harness:", err)
+		os.Exit(exitTrouble)
+	}
+}
+
+// cmdWorker runs workloads [from,to) derived from (seed, index). In a -race
+// build the run is a violation as soon as the detector has reported anything.
+func cmdWorker(args []string, sweep bool) {
+	fs := flag.NewFlagSet("worker", flag.ExitOnError)
+	prop := fs.String("prop", "", "property")
+	seed := fs.Uint64("seed", 1, "VERIF_SEED")
+	from := fs.Uint64("from", 0, "first run index")
+	to := fs.Uint64("to", 1, "one past the last run index")
+	out := fs.String("out", "", "result file (JSON)")
+	tuples := fs.String("tuples", "", "file receiving (expression, document, outcome) tuples for the oracle process")
+	maxOps := fs.Int("maxops", 12, "C06: maximum history length")
+	maxYields := fs.Uint64("maxyields", 3_000_000, "watchdog: yields per run")
+	samples := fs.Int("samples", 0, "keep this many sample workloads in the output")
+	digests := fs.String("digests", "", "write one line per run: index, event-log digest (determinism self-check)")
+	fs.Parse(args)
+	st := newStats()
+	simrt.TrackPerms = true
+	wo := &WorkerOut{Prop: *prop, Race: simrt.RaceEnabled}
+	var tw *bufio.Writer
+	if *tuples != "" {
+		f, err := os.Create(*tuples)
+		if err != nil {
+			fmt.Fprintln(os.Stderr, "harness:", err)
+			os.Exit(exitTrouble)
+		}
+		defer f.Close()
+		tw = bufio.NewWriter(f)
+		defer tw.Flush()
+	}
+	var dw *bufio.Writer
+	if *digests != "" {
+		f, err := os.Create(*digests)
+		if err != nil {
+			fmt.Fprintln(os.Stderr, "harness:", err)
+			os.Exit(exitTrouble)
+		}
+		defer f.Close()
+		dw = bufio.NewWriter(f)
+		defer dw.Flush()
+	}
+	finish := func(code int) {
+		wo.S = st.out()
+		wo.Runs = st.Runs
+		if tw != nil {
+			tw.Flush()
+		}
+		if dw != nil {
+			dw.Flush()
+		}
+		if *out != "" {
+			writeJSONFile(*out, wo)
+		}
+		os.Exit(code)
+	}
+	one := func(w *Workload) {
+		fmt.Fprintf(os.Stderr, "SIM-BEGIN %d\n", w.Index)
+		races0 := simrt.RaceErrors()
+		rep := runWorkload(w, st, *maxYields)
+		if dw != nil {
+			fmt.Fprintf(dw, "%d %016x\n", w.Index, rep.Digest)
+		}
+		if simrt.RaceErrors() > races0 {
+			ew := w.clone()
+			ew.Sched = rep.Explicit
+			wo.Viol = &Violation{Prop: w.Prop, Class: "data-race", Sig: "data-race", Detail: "the race detector reported a data race between simulated clients (report on stderr)"}
+			wo.Workload = ew
+			finish(exitRace)
+		}
+		if rep.Inconclusive != "" {
+			wo.Inconcl = rep.Inconclusive
+			wo.Workload = w
+			finish(exitTrouble)
+		}
+		if rep.Viol != nil {
+			ew := w.clone()
+			ew.Sched = rep.Explicit
+			wo.Viol = rep.Viol
+			wo.Workload = ew
+			finish(exitViolation)
+		}
+		if tw != nil {
+			for _, t := range rep.Tuples {
+				tw.WriteString(mustJSON(t))
+				tw.WriteByte('\n')
+			}
+		}
+		if len(wo.SampleWls) < *samples {
+			ew := w.clone()
+			for i := range ew.Exprs {
+				ew.Exprs[i].Tree = nil
+			}
+			wo.SampleWls = append(wo.SampleWls, mustJSON(ew))
 		}
 	}
-	for seed := uint64(0); seed < 3; seed++ {
-		r := simrt.Run(fns, simrt.Schedule{Kind: simrt.StratWalk, Seed: seed, WalkDen: 8}, 1e6)
-		fmt.Println(r.Steps, r.TaskSteps, r.Digest, len(r.Switches), r.MapServed, r.MapReord, outs[0], outs[1])
+	for idx := *from; idx < *to; idx++ {
+		w := genWorkload(*prop, *seed, idx, *maxOps)
+		if !sweep {
+			one(w)
+			continue
+		}
+		// preemption-point sweep: run the first task to its k-th yield, then
+		// every other task to completion, then resume it; k over all its yields
+		if len(w.Tasks) < 2 {
+			continue
+		}
+		for k := uint64(0); ; k++ {
+			sw := w.clone()
+			sw.Sched = simrt.Schedule{Kind: simrt.StratExplicit, First: 0, Switches: []simrt.Switch{{Step: k, From: 0, To: 1}}}
+			before := st.Switches
+			one(sw)
+			if st.Switches == before || k > 20000 {
+				break // k is beyond the first task's last yield
+			}
+		}
 	}
+	finish(0)
+}
+
+func readWorkload(path string) *Workload {
+	b, err := os.ReadFile(path)
+	if err != nil {
+		fmt.Fprintln(os.Stderr, "harness:", err)
+		os.Exit(exitTrouble)
+	}
+	var rf ReplayFile
+	if err := json.Unmarshal(b, &rf); err != nil || rf.Workload == nil {
+		fmt.Fprintln(os.Stderr, "harness: bad replay file:", err)
+		os.Exit(exitTrouble)
+	}
+	return rf.Workload
+}
+
+// ReplayFile is what is written under /verif/replays.
+type ReplayFile struct {
+	Property  string     `json:"property"`
+	Build     string     `json:"build"` // plain | race
+	Violation *Violation `json:"violation"`
+	Workload  *Workload  `json:"workload"`
+	Seed      uint64     `json:"verif_seed"`
+	Note      string     `json:"note,omitempty"`
+	RaceText  string     `json:"race_report,omitempty"`
+}
+
+// cmdReplay executes one explicit workload. Exit 1 (or 66 in a race build
+// when the detector fires) with a line "SIM-VIOLATION class=<c> sig=<s>".
+func cmdReplay(args []string) {
+	fs := flag.NewFlagSet("replay", flag.ExitOnError)
+	maxYields := fs.Uint64("maxyields", 3_000_000, "watchdog")
+	fs.Parse(args)
+	if fs.NArg() != 1 {
+		fmt.Fprintln(os.Stderr, "usage: jmsim replay <file>")
+		os.Exit(exitTrouble)
+	}
+	w := readWorkload(fs.Arg(0))
+	st := newStats()
+	rep := runWorkload(w, st, *maxYields)
+	if simrt.RaceErrors() > 0 {
+		fmt.Println("SIM-VIOLATION class=data-race sig=data-race")
+		os.Exit(exitRace)
+	}
+	if rep.Inconclusive != "" {
+		fmt.Println("SIM-INCONCLUSIVE " + rep.Inconclusive)
+		os.Exit(exitTrouble)
+	}
+	if rep.Viol != nil {
+		fmt.Printf("SIM-VIOLATION class=%s sig=%s\n%s\n", rep.Viol.Class, rep.Viol.Sig, rep.Viol.Detail)
+		os.Exit(exitViolation)
+	}
+	fmt.Printf("SIM-OK steps=%d digest=%016x\n", st.Steps, rep.Digest)
+}
+
+// cmdOracle re-evaluates recorded calls in a process that never ran the
+// history or the concurrent phase, in shuffled order.
+func cmdOracle(args []string) {
+	fs := flag.NewFlagSet("oracle", flag.ExitOnError)
+	seed := fs.Uint64("seed", 1, "shuffle seed")
+	out := fs.String("out", "", "result file")
+	fs.Parse(args)
+	type res struct {
+		Checked  int    `json:"checked"`
+		Mismatch *Tuple `json:"mismatch,omitempty"`
+		Got      string `json:"got,omitempty"`
+	}
+	var r res
+	var ts []Tuple
+	for _, path := range fs.Args() {
+		f, err := os.Open(path)
+		if err != nil {
+			fmt.Fprintln(os.Stderr, "harness:", err)
+			os.Exit(exitTrouble)
+		}
+		sc := bufio.NewScanner(f)
+		sc.Buffer(make([]byte, 1<<20), 1<<28)
+		for sc.Scan() {
+			var t Tuple
+			if err := json.Unmarshal(sc.Bytes(), &t); err != nil {
+				fmt.Fprintln(os.Stderr, "harness: bad tuple:", err)
+				os.Exit(exitTrouble)
+			}
+			ts = append(ts, t)
+		}
+		f.Close()
+	}
+	rng := NewRng(*seed, 0x04ac1e)
+	for i := len(ts) - 1; i > 0; i-- {
+		j := rng.Intn(i + 1)
+		ts[i], ts[j] = ts[j], ts[i]
+	}
+	code := 0
+	for i := range ts {
+		t := &ts[i]
+		doc, err := Dec(t.Doc)
+		if err != nil {
+			fmt.Fprintln(os.Stderr, "harness:", err)
+			os.Exit(exitTrouble)
+		}
+		simrt.SetPolicy(t.Pol)
+		o := callFresh(t.Text, doc, t.OneShot)
+		var got string
+		if t.Mode != nil {
+			c := &c15cmp{mode: t.Mode, exact: t.Exact, errAny: t.ErrAny}
+			got = c.key(o)
+		} else {
+			got = o.Key()
+		}
+		r.Checked++
+		if got != t.Key {
+			r.Mismatch, r.Got = t, got
+			code = exitViolation
+			break
+		}
+	}
+	if *out != "" {
+		writeJSONFile(*out, r)
+	}
+	os.Exit(code)
+}
+
+func cmdGen(args []string) {
+	fs := flag.NewFlagSet("gen", flag.ExitOnError)
+	prop := fs.String("prop", "C15", "property")
+	seed := fs.Uint64("seed", 1, "seed")
+	from := fs.Uint64("from", 0, "")
+	to := fs.Uint64("to", 10, "")
+	full := fs.Bool("full", false, "print whole workloads")
+	fs.Parse(args)
+	for i := *from; i < *to; i++ {
+		w := genWorkload(*prop, *seed, i, 12)
+		if *full {
+			fmt.Println(mustJSON(w))
+			continue
+		}
+		for _, e := range w.Exprs {
+			m := "?"
+			if e.Tree != nil {
+				mm, an := Analyze(e.Tree)
+				m = mm.String()
+				if an.MultiFault {
+					m += " multifault"
+				}
+				if an.Enum {
+					m += " enum"
+				}
+			}
+			fmt.Printf("%d\t%s\t%s\n", i, m, e.Text)
+		}
+	}
+}
+
+func atoiDefault(s string, d int) int {
+	if n, err := strconv.Atoi(strings.TrimSpace(s)); err == nil {
+		return n
+	}
+	return d
 }
